@@ -19,7 +19,7 @@ MANIFEST = dict(
          "that to all histories. Finding D7 is proved as a theorem about the shipped table (teardown delivered while facade is None) and "
          "reproduced on the real manager. Tie: translator + differential correspondence with the REAL GeckoAsyncSpaMan (locator.discover, "
          "GeckoAsyncSpa._connect, async_get_watercare and the facade constructor scripted) on the virtual loop, including calls parked at any "
-         "delivery/await while other calls run; direct monitors on the real manager. Session 4: every error scenario x reset origin is run on the real stack with a suspending client handler and the reset must land in IDLE; the guard `self._spa is not None` is part of the translated vocabulary (.spaSome). The order inside GeckoAsyncSpa.disconnect() is a theorem over its regenerated suspension skeleton (disconnect_order: announced before the spa cancels its own tasks, nothing suspends between that cancellation and the last clean-up step). every_started_phase_is_closed: over the regenerated skeletons, the FINISHED announcement is awaited on every exit of the locate / connect phase, cancellation at any await included (resource monitor, sound by releasedOnEveryExit_sound). A reset from another task while the sequence pump is suspended in the client`s facade-ready handler: phases closed, manager reconnects. Round 14: a user reset with a client whose disconnection handlers are slower than a discovery (genuine defect D16, fix 124e61a) - real stack. Round 15: a monitor for the 'needs attention' row of the state table that does not go through the model (terminal errors delivered while a spa object exists). Round 16: the client's handler raises, or the caller is cancelled, at each delivery of a locate / connect call in turn (explore_handler_faults) - every phase whose started event was delivered is closed.",
+         "delivery/await while other calls run; direct monitors on the real manager. Session 4: every error scenario x reset origin is run on the real stack with a suspending client handler and the reset must land in IDLE; the guard `self._spa is not None` is part of the translated vocabulary (.spaSome). The order inside GeckoAsyncSpa.disconnect() is a theorem over its regenerated suspension skeleton (disconnect_order: announced before the spa cancels its own tasks, nothing suspends between that cancellation and the last clean-up step). every_started_phase_is_closed: over the regenerated skeletons, the FINISHED announcement is awaited on every exit of the locate / connect phase, cancellation at any await included (resource monitor, sound by releasedOnEveryExit_sound). A reset from another task while the sequence pump is suspended in the client`s facade-ready handler: phases closed, manager reconnects. Round 14: a user reset with a client whose disconnection handlers are slower than a discovery (genuine defect D16, fix 124e61a) - real stack. Round 15: a monitor for the 'needs attention' row of the state table that does not go through the model (terminal errors delivered while a spa object exists). Round 16: the client's handler raises, or the caller is cancelled, at each delivery of a locate / connect call in turn (explore_handler_faults) - every phase whose started event was delivered is closed. Round 17: the lifecycle tables of the audited commit are pinned (pins/c08-lifecycle-ref); when the table of the tree under test cannot be generated or differs, the model runs on the pinned table and a disagreement with the real manager is a failing history; an error from another task while the connect call is parked in every one of its deliveries.",
     note="Trusted: Lean kernel, translator (an unknown statement refuses), correspondence harness. The content of locate/connect is abstracted to its "
          "event sequence (C01/C06/C15). Theorems other than the delivery/status one are about calls that are not interleaved; interleavings are "
          "covered by correspondence + search to bounded depth. Locate/connect are assumed to be issued as the sequence pump does (one at a time, "
@@ -731,6 +731,42 @@ def explore_handler_faults():
     return out
 
 
+def explore_events_inside_connect():
+    """a terminal error of the connection (too many RF errors, retry budget exhausted) reported from another task while the connect call is
+    suspended in the client's handler of its k-th delivery - every delivery in turn: what the manager shows once the call has completed.
+    Returns [(k, delivery the call was parked in, intruder, state afterwards, ready announced after the error)]."""
+    out = []
+
+    async def body(loop):
+        try:
+            ok, _f, _r, _rt = connect_paths()
+            okp = path_str(ok)
+        except Exception:  # noqa
+            okp = [a for a in FALLBACK_ALPHABET if a.startswith("connect:") and "SPA_COMPLETE" in a][0].split(":")[1]
+        with patched():
+            for intruder in ("rferr:1", "ev:ERROR_PROTOCOL_RETRY_COUNT_EXCEEDED"):
+                for k in range(0, 14):
+                    rig = Rig(True, True)
+                    await rig.start("enter", None)
+                    await rig.start("locate:f1", None)
+                    r = await rig.start(f"connect:{okp}:0", k)
+                    if not r.endswith("|P=1"):
+                        rig.close()
+                        break
+                    parked_in = rig.cur["deliveries"][-1].split(",")[0] if rig.cur["deliveries"] else "-"
+                    had_spa = rig.man._spa is not None
+                    await rig.start(intruder, None)
+                    mid = rig.man.spa_state.name
+                    n_ready = sum(f["ready"] for f in rig.facades.values())
+                    await rig.resume(0, None)
+                    end = rig.man.spa_state.name
+                    out.append({"parked in": parked_in, "k": k, "error reported": intruder, "spa existed": had_spa, "state after the error": mid,
+                                "state after the call completed": end, "ready announced afterwards": sum(f["ready"] for f in rig.facades.values()) - n_ready})
+                    rig.close()
+    vloop.run_virtual(body)
+    return out
+
+
 def explore_reset_in_ready_handler():
     """REAL stack: the sequence pump is suspended inside the client's handler of CLIENT_FACADE_IS_READY (delivered while the
     connect phase is being closed) when a reset arrives from ANOTHER task (a Reconnect press); the handler is then released.
@@ -826,6 +862,31 @@ def explore_reset_with_slow_client(slow):
     return res
 
 
+REF_TABLES = ("LifecycleEnums", "LifecycleTable", "LifecycleReach")
+
+
+def use_reference_tables(st):
+    """the lifecycle table IS the specification of this property. When the table of the tree under test cannot be generated, or differs from
+    the one pinned at the audited commit (pins/c08-lifecycle-ref), the search for a failing input goes on against the PINNED table: the
+    model driver is run on it and every disagreement with the real manager is a history on which the manager no longer follows the table.
+    Returns "untranslatable" | "differs" | None (the generated table is the pinned one)."""
+    import shutil
+    from common import VERIF
+    ref = VERIF / "pins" / "c08-lifecycle-ref"
+    if not ref.is_dir():
+        return None
+    why = None
+    for k in REF_TABLES:
+        if st.get(k) != "ok":
+            why = "untranslatable"
+        elif why is None and (translate.GEN / f"{k}.lean").read_text() != (ref / f"{k}.lean").read_text():
+            why = "differs"
+    if why:
+        for k in REF_TABLES:
+            shutil.copy(ref / f"{k}.lean", translate.GEN / f"{k}.lean")
+    return why
+
+
 def run(ctx):
     st = translate.run(["LifecycleEnums", "LifecycleTable", "LifecycleReach", "Skeletons"])
     ctx.cov["translator"] = st
@@ -833,6 +894,10 @@ def run(ctx):
         if v != "ok":
             ctx.obligation_broken(f"translate:{k}", v)
     ctx.lean_obligations("GeckoModel.Properties.C08")
+    ref_mode = use_reference_tables(st)
+    if ref_mode == "differs":
+        ctx.obligation_broken("pin:lifecycle-table", "the lifecycle table generated from this tree differs from the one pinned at the audited commit")
+    ctx.cov["searching_against_the_pinned_table"] = ref_mode
     try:
         alpha = alphabet()
     except Exception as e:  # noqa - untranslatable table: fall back to the alphabet of the audited commit
@@ -897,6 +962,37 @@ def run(ctx):
         report(ctx, sched, ident, name, probs, shortest, (0, 10 ** 6 + n_c))
         ctx.count("evaluations", 3)
         conc_shapes.add(tuple((s[0], s[1].split(":")[0] if s[0] == "start" else "", s[2] is not None) for s in sched))
+    # ---- C2: an error of the connection (or a reset) reported from another task while the connect call is suspended in the client's handler
+    #      of its k-th delivery - EVERY delivery of the call in turn, the last ones (connection complete, facade ready) included
+    async def body_c2(loop):
+        out = []
+        try:
+            okp = path_str(connect_paths()[0])
+        except Exception:  # noqa
+            okp = [a for a in FALLBACK_ALPHABET if a.startswith("connect:") and "SPA_COMPLETE" in a][0].split(":")[1]
+        with patched():
+            # (a RESET inside the late deliveries is not in this list yet: on the stub rig `enter;locate:f1;connect:ok:0@16;reset;resume0` ends
+            #  CONNECTED with a facade and no spa on the unchanged tree - to be examined against the real stack before it becomes a check)
+            for intruder in ("rferr:1", "ev:ERROR_PROTOCOL_RETRY_COUNT_EXCEEDED", "pingmiss:1"):
+                for k in range(0, 24):
+                    sched = [("start", "enter", None), ("start", "locate:f1", None), ("start", f"connect:{okp}:0", k), ("start", intruder, None), ("resume", 0, None)]
+                    lines, ans, probs, _ = await run_schedule(sched, True, True)
+                    if not ans[3].endswith("|P=1"):
+                        break              # the call has fewer deliveries than k: it was not parked (nothing to resume)
+                    out.append((sched, True, True, lines, ans, probs))
+        return out
+    try:
+        inside = vloop.run_virtual(body_c2, seed=ctx.seed)
+    except Exception as e:  # noqa
+        inside = []
+        ctx.obligation_broken("harness:events-inside-connect", f"{type(e).__name__}: {e}")
+    for n_c, (sched, ident, name, lines, ans, probs) in enumerate(inside):
+        where.append((len(all_lines), sched, ident, name))
+        all_lines += lines
+        all_ans += ans
+        report(ctx, sched, ident, name, probs, shortest, (0, 2 * 10 ** 6 + n_c))
+        ctx.count("evaluations", 5)
+    ctx.cov["events_inside_a_parked_connect"] = len(inside)
     ctx.cov["pair_interleavings"] = len(pair_results)
     ctx.cov["pair_interleaving_start_states"] = nreps
 
@@ -978,8 +1074,14 @@ def run(ctx):
                 nd += 1
                 if nd <= 3:
                     w = where[bisect.bisect_right(starts, i) - 1]
-                    ctx.obligation_broken("correspondence:lifecycle-model-vs-real-manager",
-                                          {"schedule": sched_str(w[1][:i - w[0]]), "ident": w[2], "name": w[3], "op": all_lines[i], "model": mo, "impl": im})
+                    if ref_mode:
+                        if nd == 1:
+                            ctx.violation("differs-from-the-audited-lifecycle-table", {"kind": "differs-from-the-audited-lifecycle-table", "schedule": sched_str(w[1][:i - w[0]]),
+                                                                                         "ident": w[2], "name": w[3]},
+                                          {"the pinned table gives (deliveries | state, facade, spa ... | outcome)": mo}, {"the real manager": im, "step": all_lines[i]})
+                    else:
+                        ctx.obligation_broken("correspondence:lifecycle-model-vs-real-manager",
+                                              {"schedule": sched_str(w[1][:i - w[0]]), "ident": w[2], "name": w[3], "op": all_lines[i], "model": mo, "impl": im})
         ctx.cov["correspondence_ops"] = len(all_lines)
         ctx.cov["correspondence_disagreements"] = nd
     for (kind, cls), (_, txt, ident, name, detail) in sorted(shortest.items()):
@@ -1007,6 +1109,25 @@ def run(ctx):
 
 
 def replay(inp):
+    if inp.get("kind") == "differs-from-the-audited-lifecycle-table":
+        st = translate.run(["LifecycleEnums", "LifecycleTable", "LifecycleReach", "Skeletons"])
+        use_reference_tables(st)
+        try:
+            alphabet()
+        except Exception:  # noqa
+            ALIAS.setdefault("ok", FALLBACK_ALPHABET[5].split(":")[1])
+        sched = parse_sched(inp["schedule"])
+
+        async def body(loop):
+            with patched():
+                return await run_schedule(sched, inp.get("ident", True), inp.get("name", False))
+        lines, ans, probs, _ = vloop.run_virtual(body, seed=0)
+        try:
+            model = Driver("Driver/C08.lean").run(lines)
+        except DriverFailure as e:
+            return True, f"the model of the pinned table could not be run: {e}"[:300]
+        bad = [(l, m, a) for l, m, a in zip(lines, model, ans) if m != a]
+        return bool(bad), ({"step": bad[0][0], "pinned table": bad[0][1], "real manager": bad[0][2]} if bad else "the manager follows the pinned table on this schedule")
     if inp.get("kind") == "handler-fault":
         hf = explore_handler_faults()
         return bool(hf), hf[:3] or "every started phase is closed"
